@@ -236,8 +236,9 @@ def tlc(module, cfg=None, workers=8, timeout=900, simulate=None, depth=None, tlc
     out = p.stdout.decode("utf8", "replace")
     res = TlcResult(p.returncode, out, time.time() - t0)
     if p.returncode not in (0, 10, 12, 13):
-        raise ToolError("TLC failed on %s (rc=%d):\n%s\n%s" % (
-            module, p.returncode, res.tail(60), p.stderr.decode("utf8", "replace")[-2000:]))
+        errs = [l[:400] for l in out.splitlines() if re.search(r"Error|Exception|Attempted|overflow", l)][:12]
+        raise ToolError("TLC failed on %s (rc=%d):\n%s\n...\n%s\n%s" % (
+            module, p.returncode, "\n".join(errs), res.tail(25), p.stderr.decode("utf8", "replace")[-2000:]))
     return res
 
 
